@@ -539,7 +539,12 @@ class Stack:
         return len(self.layers)
 
     def name(self):
-        return "/".join(l["kind"] for l in self.layers) + " N=%d M=%d idx=%s real=%s store=%s" % (self.n, self.m, self.idx, self.real, self.store)
+        """unique per parameterisation: kinds, types and a digest of every configuration value"""
+        import hashlib as _h
+        sig = repr([(l["kind"], l["level"], l.get("ext"), l.get("lo"), l.get("hi"), l.get("default"), l.get("perm"), l.get("target"),
+                     l.get("matrix"), l.get("value"), l.get("len"), l.get("default_coord"), l.get("in"), l.get("out")) for l in self.layers])
+        return "/".join(l["kind"] for l in self.layers) + " N=%d M=%d idx=%s real=%s store=%s #%s" % (
+            self.n, self.m, self.idx, self.real, self.store, _h.sha256(sig.encode()).hexdigest()[:8])
 
     def type_aliases(self):
         """returns list of 'using Bk = ...;' innermost first; B0 is the whole stack"""
